@@ -4,6 +4,7 @@
 From Coq Require Import NArith List Bool String.
 Import ListNotations.
 Require Import BV.gen.GenStatus BV.model.Status BV.proofs.Status_proofs.
+Require Import BV.gen.GenStatusFn BV.proofs.StatusSrc_proofs.
 Open Scope N_scope.
 
 (* pinned by the property text: the success code of both legacy families is 0, OK is 0 *)
@@ -54,3 +55,89 @@ Example c18_examples :
   normalise FEmber 0x72 <> sl_OK /\ normalise FEmber 0x77 = sl_FAIL /\ normalise FEzsp 0xEE = sl_FAIL
   /\ normalise FUnified 0x12345 = 0x12345.
 Proof. vm_compute. repeat split; discriminate. Qed.
+
+(* ---- tie to the source text (gen/GenStatusFn.v, proofs/StatusSrc_proofs.v) --------------------------------------
+   [py_from_ember_status] is emitted from the AST of sl_Status.from_ember_status, [py_SL_STATUS_MAP] from the AST of the
+   expression that defines SL_STATUS_MAP; a status value is (class tag, integer), [sl_class] the class the classmethod is
+   called on. *)
+
+(* the dict the defining expression denotes is the table read from the live dict *)
+Theorem c18_source_map :
+  map flat_entry py_SL_STATUS_MAP = status_map /\ forallb entry_wf py_SL_STATUS_MAP = true.
+Proof. exact (conj src_map_is_table src_map_wf). Qed.
+
+(* every class, every integer (all 256 codes of the legacy classes, every 32-bit unified value and beyond): the emitted
+   function returns -- it does not raise -- a unified status, the model's *)
+Theorem c18_source_conversion : forall (f : family) (c : N),
+  py_from_ember_status sl_class (fam_tag f, c) = PRet (sl_class, normalise f c).
+Proof. exact source_conversion. Qed.
+
+(* the KeyError of SL_STATUS_MAP[key] and the AttributeError of cls.FAIL are unreachable *)
+Theorem c18_source_never_raises : forall (f : family) (c : N) (e : pyexn),
+  py_from_ember_status sl_class (fam_tag f, c) <> PExn e.
+Proof. exact source_never_raises. Qed.
+
+Theorem c18_source_unified_unchanged : forall c : N,
+  py_from_ember_status sl_class (fam_tag FUnified, c) = PRet (fam_tag FUnified, c).
+Proof. exact source_unified_unchanged. Qed.
+
+Theorem c18_source_ok_iff : forall (f : family) (c : N),
+  f <> FUnified -> c < 256 ->
+  (py_from_ember_status sl_class (fam_tag f, c) = PRet (sl_class, sl_OK) <-> c = success_code f).
+Proof. exact source_ok_iff. Qed.
+
+(* the per-version wrappers ([py_wrappers]: one row per version x wrapper x return statement x status position, from
+   the AST of the function that version's class resolves the name to).  Below version 14 every status a wrapper
+   returns went through the conversion (or is a unified member written in the source), and what is handed on is the
+   conversion of the integer the NCP answered; a cast `t.sl_Status(x)` or a legacy field handed on as it is breaks
+   the sweep behind this theorem *)
+Theorem c18_source_wrappers_convert : forall r : wrapper_row,
+  In r py_wrappers -> w_version r < 14 ->
+  (w_kind r = KConv \/ exists m, w_kind r = KConst (sl_class, m)) /\
+  ((forall c, wrapper_returns r c = PRet (sl_class, normalise (fam_of_tag (w_ans_class r)) c))
+   \/ exists m, w_kind r = KConst (sl_class, m)).
+Proof. exact wrappers_convert. Qed.
+
+(* every version, 14 included (there the answers already are of the unified class) *)
+Theorem c18_source_wrappers_return_conversion : forall r : wrapper_row,
+  In r py_wrappers ->
+  (forall c, wrapper_returns r c = PRet (sl_class, normalise (fam_of_tag (w_ans_class r)) c))
+  \/ exists m, w_kind r = KConst (sl_class, m).
+Proof. exact wrappers_return_conversion. Qed.
+
+(* the table has a row for each of the wrappers the application steers by, in each of the 11 versions *)
+Theorem c18_source_wrappers_cover : forall (v : N) (n : string),
+  In v [4; 5; 6; 7; 8; 9; 10; 11; 12; 13; 14] -> In n steering_wrappers ->
+  exists r, In r py_wrappers /\ w_version r = v /\ w_name r = n.
+Proof. exact wrappers_cover. Qed.
+
+(* every comparison of a value with status members in the controller modules: with success members only, or with
+   unified members and an operand that was converted on every path that reaches the comparison *)
+Theorem c18_source_compare_sites : forall s : compare_site, In s py_compare_sites -> site_ok s = true.
+Proof. exact compare_sites_ok. Qed.
+
+Theorem c18_source_success_compare : forall (f : family) (c : N) (m : pystatus),
+  (f <> FUnified -> c < 256) -> member_is_success m = true ->
+  (c =? snd m) = (normalise f c =? sl_OK).
+Proof. exact success_compare. Qed.
+
+(* non-vacuity of the source tie: a mapped, an unmapped and an undefined legacy code, a unified value; the cast is told
+   apart from the conversion; the sites behind the start-up decision and the retry loop are in the table *)
+Example c18_source_examples :
+  py_from_ember_status sl_class (fam_tag FEmber, 0x93) = PRet (sl_class, 0x17)
+  /\ py_from_ember_status sl_class (fam_tag FEmber, 0x77) = PRet (sl_class, sl_FAIL)
+  /\ py_from_ember_status sl_class (fam_tag FEzsp, 0xEE) = PRet (sl_class, sl_FAIL)
+  /\ py_from_ember_status sl_class (fam_tag FUnified, 0x12345) = PRet (sl_class, 0x12345)
+  /\ row_unified (mkW 6 "initialize_network" 6 0 None "networkInit" 0 1 (KCast 2)) = false
+  /\ row_unified (mkW 6 "initialize_network" 6 0 None "networkInit" 0 1 KAsIs) = false
+  /\ wrapper_returns (mkW 6 "initialize_network" 6 0 None "networkInit" 0 1 (KCast 2)) 0x93 = PRet (sl_class, 0x93)
+  /\ wrapper_returns (mkW 6 "initialize_network" 6 0 None "networkInit" 0 1 KConv) 0x93 = PRet (sl_class, 0x17).
+Proof. vm_compute. repeat split. Qed.
+
+Example c18_source_sites_present :
+  existsb (site_named "ControllerApplication._ensure_network_running" (member_or "NOT_JOINED" sl_members 0)) py_compare_sites
+  && existsb (site_named "ControllerApplication.send_packet" (member_or "ZIGBEE_MAX_MESSAGE_LIMIT_REACHED" sl_members 0)) py_compare_sites
+  && existsb (site_named "ControllerApplication.send_packet" (member_or "ALLOCATION_FAILED" sl_members 0)) py_compare_sites
+  && existsb (site_named "EZSPv4.read_link_keys" (member_or "INVALID_INDEX" sl_members 0)) py_compare_sites
+  && existsb (site_named "EZSPv4.read_link_keys" (member_or "NOT_FOUND" sl_members 0)) py_compare_sites = true.
+Proof. exact compare_sites_present. Qed.
